@@ -32,7 +32,7 @@ open Scico.Jaxpr
 abbrev Vc := ℕ → ℂ
 
 /-- one term of a sparse row: (operand number, entry of that operand, coefficient) -/
-abbrev Term := ℕ × ℕ × ℂ
+abbrev Term := Scico.Jaxpr.Term ℂ
 
 /-- a row-finite sparse matrix over the operand list -/
 abbrev LinDesc := ℕ → List Term
@@ -40,8 +40,11 @@ abbrev LinDesc := ℕ → List Term
 /-- operand `k` of the list (absent operands read as the zero array) -/
 def opnd (xs : List Vc) (k : ℕ) : Vc := xs.getD k 0
 
-def applyDesc (T : LinDesc) (xs : List Vc) : Vc :=
-  fun i => ((T i).map fun t => t.2.2 * opnd xs t.1 t.2.1).sum
+/-- the model's `applyDescG` (Mathlib-free, run at `Float` by the driver against the JAX primitives) at `ℂ` -/
+def applyDesc (T : LinDesc) (xs : List Vc) : Vc := applyDescG T xs
+
+theorem applyDesc_apply (T : LinDesc) (xs : List Vc) (i : ℕ) :
+    applyDesc T xs i = ((T i).map fun t => t.2.2 * opnd xs t.1 t.2.1).sum := rfl
 
 theorem opnd_ladd (xs ys : List Vc) (h : xs.length = ys.length) (k : ℕ) :
     opnd (ladd xs ys) k = opnd xs k + opnd ys k := by
@@ -81,14 +84,14 @@ theorem sum_map_mul' {α : Type} (l : List α) (c : ℂ) (f : α → ℂ) :
 theorem applyDesc_add (T : LinDesc) (xs ys : List Vc) (h : xs.length = ys.length) :
     applyDesc T (ladd xs ys) = applyDesc T xs + applyDesc T ys := by
   funext i
-  simp only [applyDesc, Pi.add_apply, opnd_ladd xs ys h, mul_add]
+  simp only [applyDesc_apply, Pi.add_apply, opnd_ladd xs ys h, mul_add]
   exact sum_map_add' _ _ _
 
 /-- … and homogeneous over ℂ -/
 theorem applyDesc_smul (T : LinDesc) (c : ℂ) (xs : List Vc) :
     applyDesc T (lsmul c xs) = c • applyDesc T xs := by
   funext i
-  simp only [applyDesc, Pi.smul_apply, opnd_lsmul, smul_eq_mul]
+  simp only [applyDesc_apply, Pi.smul_apply, opnd_lsmul, smul_eq_mul]
   rw [← sum_map_mul']
   congr 1
   apply List.map_congr_left
@@ -129,38 +132,38 @@ def matD (m n : ℕ) (M : ℕ → ℕ → ℂ) : LinDesc :=
 section computes
 variable (x y : Vc) (i : ℕ)
 
-theorem addD_apply : applyDesc addD [x, y] i = x i + y i := by simp [applyDesc, addD, opnd]
-theorem subD_apply : applyDesc subD [x, y] i = x i - y i := by simp [applyDesc, subD, opnd]; ring
-theorem negD_apply : applyDesc negD [x] i = - x i := by simp [applyDesc, negD, opnd]
-theorem scaleD_apply (c : ℂ) : applyDesc (scaleD c) [x] i = c * x i := by simp [applyDesc, scaleD, opnd]
+theorem addD_apply : applyDesc addD [x, y] i = x i + y i := by simp [applyDesc_apply, addD, opnd]
+theorem subD_apply : applyDesc subD [x, y] i = x i - y i := by simp [applyDesc_apply, subD, opnd]; ring
+theorem negD_apply : applyDesc negD [x] i = - x i := by simp [applyDesc_apply, negD, opnd]
+theorem scaleD_apply (c : ℂ) : applyDesc (scaleD c) [x] i = c * x i := by simp [applyDesc_apply, scaleD, opnd]
 theorem sliceD_apply (s t n : ℕ) : applyDesc (sliceD s t n) [x] i = if i < n then x (s + t * i) else 0 := by
-  by_cases h : i < n <;> simp [applyDesc, sliceD, opnd, h]
+  by_cases h : i < n <;> simp [applyDesc_apply, sliceD, opnd, h]
 theorem padD_apply (lo n : ℕ) : applyDesc (padD lo n) [x] i = if lo ≤ i ∧ i < lo + n then x (i - lo) else 0 := by
-  by_cases h : lo ≤ i ∧ i < lo + n <;> simp [applyDesc, padD, opnd, h]
+  by_cases h : lo ≤ i ∧ i < lo + n <;> simp [applyDesc_apply, padD, opnd, h]
 theorem concatD_apply (n₁ n₂ : ℕ) :
     applyDesc (concatD n₁ n₂) [x, y] i = if i < n₁ then x i else if i < n₁ + n₂ then y (i - n₁) else 0 := by
   by_cases h : i < n₁
-  · simp [applyDesc, concatD, opnd, h]
-  · by_cases h2 : i < n₁ + n₂ <;> simp [applyDesc, concatD, opnd, h, h2]
+  · simp [applyDesc_apply, concatD, opnd, h]
+  · by_cases h2 : i < n₁ + n₂ <;> simp [applyDesc_apply, concatD, opnd, h, h2]
 theorem revD_apply (n : ℕ) : applyDesc (revD n) [x] i = if i < n then x (n - 1 - i) else 0 := by
-  by_cases h : i < n <;> simp [applyDesc, revD, opnd, h]
+  by_cases h : i < n <;> simp [applyDesc_apply, revD, opnd, h]
 theorem bcastD_apply (n : ℕ) : applyDesc (bcastD n) [x] i = if i < n then x 0 else 0 := by
-  by_cases h : i < n <;> simp [applyDesc, bcastD, opnd, h]
+  by_cases h : i < n <;> simp [applyDesc_apply, bcastD, opnd, h]
 theorem transposeD_apply (r c : ℕ) :
     applyDesc (transposeD r c) [x] i = if i < r * c then x ((i % r) * c + i / r) else 0 := by
-  by_cases h : i < r * c <;> simp [applyDesc, transposeD, opnd, h]
+  by_cases h : i < r * c <;> simp [applyDesc_apply, transposeD, opnd, h]
 theorem selectD_apply (pred : ℕ → Bool) : applyDesc (selectD pred) [x, y] i = if pred i then x i else y i := by
-  by_cases h : pred i <;> simp [applyDesc, selectD, opnd, h]
+  by_cases h : pred i <;> simp [applyDesc_apply, selectD, opnd, h]
 theorem gatherD_apply (idx : List ℕ) :
     applyDesc (gatherD idx) [x] i = match idx[i]? with | some j => x j | none => 0 := by
-  cases h : idx[i]? <;> simp [applyDesc, gatherD, opnd, h]
+  cases h : idx[i]? <;> simp [applyDesc_apply, gatherD, opnd, h]
 theorem sumD_apply (n : ℕ) : applyDesc (sumD n) [x] 0 = ((List.range n).map x).sum := by
-  simp [applyDesc, sumD, opnd, List.map_map, Function.comp_def]
+  simp [applyDesc_apply, sumD, opnd, List.map_map, Function.comp_def]
 theorem cumsumD_apply (n : ℕ) (h : i < n) : applyDesc (cumsumD n) [x] i = ((List.range (i + 1)).map x).sum := by
-  simp [applyDesc, cumsumD, opnd, h, List.map_map, Function.comp_def]
+  simp [applyDesc_apply, cumsumD, opnd, h, List.map_map, Function.comp_def]
 theorem matD_apply (m n : ℕ) (M : ℕ → ℕ → ℂ) (h : i < m) :
     applyDesc (matD m n M) [x] i = ((List.range n).map fun j => M i j * x j).sum := by
-  simp [applyDesc, matD, opnd, h, List.map_map, Function.comp_def]
+  simp [applyDesc_apply, matD, opnd, h, List.map_map, Function.comp_def]
 
 end computes
 
@@ -296,16 +299,16 @@ theorem diffProg_run (n : ℕ) (h : ℕ → ℕ → ℂ) (C : ℕ → Vc) (x : F
       if i < n - 1 then x ⟨0, by decide⟩ (i + 1) - x ⟨0, by decide⟩ i else 0 := by
   rw [fin1 (by decide) j]
   by_cases hi : i < n - 1
-  · simp [run, finalEnv, evalEqns, stepVal, valOf, arrInterp, arrDen, demoTable, applyDesc, subD, sliceD, opnd, hi,
+  · simp [run, finalEnv, evalEqns, stepVal, valOf, arrInterp, arrDen, demoTable, applyDesc_apply, subD, sliceD, opnd, hi,
       add_comm]
     ring
-  · simp [run, finalEnv, evalEqns, stepVal, valOf, arrInterp, arrDen, demoTable, applyDesc, subD, sliceD, opnd, hi]
+  · simp [run, finalEnv, evalEqns, stepVal, valOf, arrInterp, arrDen, demoTable, applyDesc_apply, subD, sliceD, opnd, hi]
 
 theorem centreProg_run (n : ℕ) (h : ℕ → ℕ → ℂ) (C : ℕ → Vc) (x : Fin centreProg.nin → Vc) (j) (i : ℕ) (hi : i < n) :
     run (arrInterp (demoTable n h) C) centreProg x j i =
       x ⟨0, by decide⟩ i - ((List.range n).map (x ⟨0, by decide⟩)).sum := by
   rw [fin1 (by decide) j]
-  simp [run, finalEnv, evalEqns, stepVal, valOf, arrInterp, arrDen, demoTable, applyDesc, subD, sumD, bcastD, opnd, hi,
+  simp [run, finalEnv, evalEqns, stepVal, valOf, arrInterp, arrDen, demoTable, applyDesc_apply, subD, sumD, bcastD, opnd, hi,
     List.map_map, Function.comp_def]
   ring
 
@@ -313,6 +316,6 @@ theorem affArrProg_zero (n : ℕ) (h : ℕ → ℕ → ℂ) :
     run (arrInterp (demoTable n h) (fun _ _ => 1)) affArrProg 0 ≠ 0 := by
   intro hz
   have := congrFun (congrFun hz ⟨0, by decide⟩) 0
-  simp [run, finalEnv, evalEqns, stepVal, valOf, arrInterp, arrDen, demoTable, applyDesc, addD, opnd] at this
+  simp [run, finalEnv, evalEqns, stepVal, valOf, arrInterp, arrDen, demoTable, applyDesc_apply, addD, opnd] at this
 
 end Scico.Jaxpr.Arr
